@@ -153,6 +153,8 @@ def main(argv=None):
     assert len(set(names)) == len(names), "duplicate kernel names"
     # shards: balanced round-robin so that heavy families spread out
     nshards = max(1, min(args.jobs * 2, (len(idx) + 3) // 4))
+    if len(idx) <= args.jobs:
+        nshards = len(idx)  # few (typically heavy) kernels: one process each
     if args.shard_size:
         nshards = max(1, (len(idx) + args.shard_size - 1) // args.shard_size)
     shards = [[] for _ in range(nshards)]
